@@ -32,6 +32,11 @@ TARGETED = [
     "a --b", "a -(-b)", "a NOT NOT b", "+a --b", "a -(NOT b)", "NOT NOT a b", "n:(x:d --y:e)", "--a", "NOT (NOT a)",
     # the same name component below two parents with different answers (history inside one builder)
     "o:(m:(z:g2)) AND n:(m:(z:g))", "n:(m:(z:g)) AND o:(m:(z:g2))", "o:(x:c) AND n:(x:d)", "n:(x:d) AND o:(x:c)", "o.x:c OR n:(x:d AND y:e)",
+    # every operand negated, under each kind of operation
+    "NOT a OR NOT b", "-a -b", "NOT a NOT b", "-a -b -c", "NOT a AND NOT b", "(NOT a OR NOT b) c", "c AND (NOT a OR NOT b)", "n:(NOT x:d OR NOT y:e)", "n:(-x:d -y:e)",
+    "NOT a OR NOT b OR NOT c", "+a -b -c", "NOT n.x:d OR NOT n.y:e", "-t:b -n:(x:d)",
+    # + in front of a group / of an operation inside a boolean operation
+    "+(a OR b) c", "+(a b) c", "+(a AND b) c", "+t:(a OR b) c", "n:(+(x:d OR x:d2) y:e)", "NOT a OR b c", "+a OR b c", "-a OR b c", "c NOT a OR b",
     "nx:q", "nx:q AND n.x:d", "n.mz:p", "n:(mz:p)", "n:(mz:p AND m.z:g)", "n.xy:r OR n.x:d", "n_m:s n.m.z:g",
 ]
 
